@@ -432,16 +432,16 @@ PLANS = {
     "C10": dict(proofs=["Proofs.C10"], runs=[("c10", dict(quick=0, thorough=0))],
                 rule="every code point with a non-trivial case class in either source (quick: all below U+0250 and a quarter of the rest) x {i, iu, iv} x {literal, [c], [^c], (c)\\1} x every member of both classes; \\w \\W [\\w] [\\W] \\b for every such code point; non-trivial = c ≠ d equivalent",
                 technique="Lean 4 kernel evaluation over FOLDS / TO_UPPERCASE regenerated from the source vs ICU 78.2 snapshot, lifted to all code points; engine-level sweep of the same relation"),
-    "C01": dict(proofs=["Proofs.C01", "Proofs.Keystone"], runs=[("engine", dict(quick=30000, thorough=600000), ["--focus", "C01"]), ("lower", dict(quick=10000, thorough=200000))],
+    "C01": dict(proofs=["Proofs.C01", "Proofs.Lower", "Proofs.LowerChain", "Proofs.Keystone"], runs=[("engine", dict(quick=30000, thorough=600000), ["--focus", "C01"]), ("lower", dict(quick=10000, thorough=200000))],
                 rule=ENGINE_RULE,
                 technique="Lean 4 ES2025 specification (laws proved) as executable oracle: spec-vs-implementation differential on generated ASTs"),
-    "C04": dict(proofs=["Proofs.C04", "Proofs.C04Sem"], runs=[("engine", dict(quick=30000, thorough=1500000), ["--focus", "C04"]),
+    "C04": dict(proofs=["Proofs.C04", "Proofs.C04Sem", "Proofs.EndToEnd"], runs=[("engine", dict(quick=30000, thorough=1500000), ["--focus", "C04"]),
                                              ("compiler", dict(quick=20000, thorough=600000))],
                 rule=ENGINE_RULE,
                 technique="Lean 4 proof (prefilter transparency for any admissible scan; byte-scan and lead-byte lemmas) + executor tie + predicate-vs-Arbitrary differential"),
     "C02": dict(proofs=["Proofs.C02", "Proofs.C02Full", "Proofs.Keystone", "Proofs.Lemmas.KeystoneC02"], runs=[("engine", dict(quick=30000, thorough=1500000), ["--focus", "C02"])],
                 rule=ENGINE_RULE, technique="Lean 4 proofs about the executor models + executor tie (models run on the dumped bytecode, incl. step counts) + implementation differential"),
-    "C03": dict(proofs=["Proofs.C03", "Proofs.Keystone"], runs=[("engine", dict(quick=30000, thorough=1500000), ["--focus", "C03"]),
+    "C03": dict(proofs=["Proofs.C03", "Proofs.Keystone", "Proofs.EndToEnd"], runs=[("engine", dict(quick=30000, thorough=1500000), ["--focus", "C03"]),
                                  ("compiler", dict(quick=30000, thorough=900000))],
                 rule=ENGINE_RULE + "; compiler tie: per generated pattern the real IR before/after optimization, start predicate and program vs the Lean models, and the IR semantics vs the real first match",
                 technique="Lean 4 proof: every optimizer pass and the whole pipeline preserve the IR semantics (all inputs) + exact correspondence of the optimizer / IR-semantics models with the code + opt-vs-no_opt differential"),
@@ -459,7 +459,7 @@ PLANS = {
     "C11": dict(proofs=["Proofs.C11"], runs=[("c11", dict(quick=0, thorough=0))],
                 rule="every (kind, name) of the candidate universe (names of either side, all 2-letter names, mutations); non-trivial = accepted by ICU",
                 technique="Lean 4 kernel evaluation (decide +kernel) over tables regenerated from the source vs ICU 78.2 snapshot"),
-    "C12": dict(proofs=["Proofs.C12"], runs=[("c12sets", dict(quick=20000, thorough=400000)), ("c12classes", dict(quick=60000, thorough=1500000))],
+    "C12": dict(proofs=["Proofs.C12", "Proofs.Lower"], runs=[("c12sets", dict(quick=20000, thorough=400000)), ("c12classes", dict(quick=60000, thorough=1500000))],
                 rule="(a) random well-formed interval sets over small and full universes x set operation, non-trivial = non-empty operands; (b) /^E$/ for generated class expressions E (legacy brackets; v-mode unions, &&, --, nesting, \\q strings, negation) x flags x every mentioned character, its case partners, range neighbours and mentioned strings with single-edit variants, expected answer from the ES specification model, non-trivial = match",
                 technique="Lean 4 proof of the CodePointSet algebra (all inputs) + correspondence through hook wrappers"),
     "C16": dict(proofs=["Proofs.C16", "Proofs.Closure"], runs=[("c16", dict(quick=2000, thorough=60000))],
@@ -468,7 +468,7 @@ PLANS = {
     "C17": dict(proofs=["Proofs.C17", "Proofs.Closure"], runs=[("c17", dict(quick=1500, thorough=50000))],
                 rule="(pattern, haystack, template); non-trivial = at least one match and a `$` in the template",
                 technique="Lean 4 proof (template grammar spec = model; splice theorem) + correspondence"),
-    "C18": dict(proofs=["Proofs.C18"], runs=[("c18", dict(quick=300, thorough=3000))],
+    "C18": dict(proofs=["Proofs.C18", "Proofs.C18Full"], runs=[("c18", dict(quick=300, thorough=3000))],
                 rule="all strings up to length 2 (thorough 3) over 24 syntax/other characters + random longer ones, x 12 flag sets x 8 haystacks; non-trivial = contains a syntax character",
                 technique="Lean 4 proof over the escape model + exhaustive short-string differential against substring search"),
 }
@@ -702,6 +702,18 @@ def check(pid, tier, seed):
                     tie_diffs = []
                     for d in diffs:
                         op = d["request"].split(" ")[0]
+                        if op == "runprog" and (d["impl"].endswith(" fuel") or d["model"] == "fuel"):
+                            # the harness' step budget (3M) was exhausted on the implementation (a C05 violation is
+                            # raised by the harness where that matters); nothing to compare
+                            stats["dist"]["fuel-skips"] = stats["dist"].get("fuel-skips", 0) + 1
+                            continue
+                        if op == "runprog" and pid != "C05":
+                            # interpreted-instruction count and peak stack are part of the tie only where the
+                            # property is about them (C05); elsewhere a change of bookkeeping cost alone is not reported
+                            strip = lambda r: re.sub(r"ok \d+ \d+", "ok", r, count=1)
+                            if strip(d["impl"]) == strip(d["model"]):
+                                stats["dist"]["count-only-differences"] = stats["dist"].get("count-only-differences", 0) + 1
+                                continue
                         if op in SPEC_OPS:
                             # the Lean side is the *specification*: a difference is implementation vs spec
                             if d["model"].startswith("unsupported") or d["model"] == "fuel" or d["impl"] == "fuel":
